@@ -533,22 +533,37 @@ func (w *World) discharge(jobs []*job, timeoutS, workers, nsolvers int, keepDir 
 				again = append(again, wk)
 			}
 		}
-		if len(again) > 0 && len(again) <= 16 && os.Getenv("GOVC_NORETRY") == "" {
-			for _, wk := range again {
-				t := timeoutS * 3
-				r := solveOne(dir, wk.idx, wk.q, t, len(solvers))
-				if r.status != "unsat" {
-					continue
-				}
-				for _, j := range wk.js {
-					j.o.Status = "discharged"
-					j.o.Solver = r.solver
-					j.o.Time += r.time
-					j.o.Reason = ""
-					j.o.Model = ""
-					j.o.Retried = true
-				}
+		if len(again) > 0 && len(again) <= 48 && os.Getenv("GOVC_NORETRY") == "" {
+			// up to 16 undecided goals: one at a time; more (a badly overloaded machine, or a change that breaks many
+			// obligations at once): three at a time, so that the pass stays within a few minutes
+			par := 1
+			if len(again) > 16 {
+				par = 3
 			}
+			sem := make(chan struct{}, par)
+			var wg2 sync.WaitGroup
+			for _, wk := range again {
+				wk := wk
+				sem <- struct{}{}
+				wg2.Add(1)
+				go func() {
+					defer func() { <-sem; wg2.Done() }()
+					t := timeoutS * 3
+					r := solveOne(dir, wk.idx, wk.q, t, len(solvers))
+					if r.status != "unsat" {
+						return
+					}
+					for _, j := range wk.js {
+						j.o.Status = "discharged"
+						j.o.Solver = r.solver
+						j.o.Time += r.time
+						j.o.Reason = ""
+						j.o.Model = ""
+						j.o.Retried = true
+					}
+				}()
+			}
+			wg2.Wait()
 		}
 	}
 	if keepDir != "" {
